@@ -378,6 +378,7 @@ def run_part(ctx):
         summ["evaluations"], len(seq), len(sched), summ["traces"], summ["events"], r.wall, len(rej)))
     trs = verif.split_traces(verif.read_ndjson(tr))
     known = 0
+    timeouts = []
     if rej:
         # open known findings tied to a named deviation: re-validate the rejected traces with it enabled
         devs = sorted({f["deviation"] for f in ctx.open_findings("lifecycle") if f.get("deviation")})
@@ -392,8 +393,11 @@ def run_part(ctx):
             ev, phase = classify(trs[t], hw)
             what = "life cycle: whole-session trace of the real library is not a behaviour of XMPP.tla (%s phase): %s rejected at %s" % (
                 phase, json.dumps(meta[t])[:260], json.dumps({k: v for k, v in (ev or {}).items() if k != "_line"})[:200])
+            if ev and ev.get("ev") == "stuck" and ev.get("watchdog"):
+                timeouts.append("%s: %s" % (ev.get("blocked"), json.dumps(meta[t])[:200]))      # a timeout alone is no verdict
+                continue
             if ev and ev.get("ev") == "stuck":
-                what = "life cycle: permanent stall (%s): %s" % (ev.get("blocked"), json.dumps(meta[t])[:260])
+                what = "life cycle: permanent stall, every goroutine blocked (%s): %s" % (ev.get("blocked"), json.dumps(meta[t])[:260])
             if t not in still:
                 f = ctx.match_finding("lifecycle", {"phase": phase, "rejected_event": (ev or {}).get("ev")}, what)
                 if f:
@@ -403,6 +407,8 @@ def run_part(ctx):
             if len(ctx.violations) < 40:
                 ctx.violation(what, {"family": "lifecycle", "scenario": meta[t]["scenario"], "side": meta[t]["side"], "choices": meta[t]["choices"],
                                      "trace": trs[t], "rejected_line": hw, "rejected_event": ev, "phase": phase})
+    if timeouts and not ctx.violations:
+        raise verif.Undecided("life cycle: watchdog expired in a sequential run (loaded machine?), no verdict: " + "; ".join(timeouts[:3]))
     nself = selftest(ctx, trs) if not getattr(ctx, "replay", None) and not rej else 0
     kinds = {}
     for t, x in trs.items():
